@@ -855,6 +855,32 @@ func runC01(c *Ctx) {
 				out = append(out, ss)
 			})
 			return out, okAll && len(out) > 0
+		case *ssa.Parameter:
+			// the selection was made by the callers and handed in (refactoring B21_r4): every
+			// call site must be static and is judged like a selection made here
+			fnp := x.Parent()
+			idx := -1
+			for i, q := range fnp.Params {
+				if q == x {
+					idx = i
+				}
+			}
+			edges := p.Callers(fnp)
+			if idx < 0 || len(edges) == 0 {
+				return nil, false
+			}
+			var out []sideSel
+			for _, e := range edges {
+				if e.Kind != "static" || e.Site == nil || idx >= len(e.Site.Common().Args) {
+					return nil, false
+				}
+				ss, ok := sidesOf(e.Site.Common().Args[idx], depth+1)
+				if !ok {
+					return nil, false
+				}
+				out = append(out, ss...)
+			}
+			return out, len(out) > 0
 		}
 		return nil, false
 	}
